@@ -105,7 +105,7 @@ func ljBuild(L *lua.LState, v LJVal) lua.LValue {
 func toNumKind(v any, floats bool) any {
 	switch t := v.(type) {
 	case float64:
-		if floats {
+		if floats || t >= 9.2e18 || t <= -9.2e18 {
 			return t
 		}
 		return int64(t)
@@ -275,7 +275,7 @@ func coqJSON(v any) string {
 	case bool:
 		return emit.App("JBool", emit.Bool(t))
 	case float64:
-		return emit.App("JNum", emit.Z(int64(t)))
+		return emit.App("JNum", emit.ZFloat(t))
 	case string:
 		return emit.App("JStr", emit.Str(t))
 	case []any:
@@ -391,6 +391,10 @@ func genLJValue(r *rand.Rand, depth int) any {
 		case 3:
 			return pick(r, "", "a", "x y", "with \"quote\"", "tab-less")
 		case 4:
+			if chance(r, 35) {
+				// whole numbers around and beyond the int64 range: Lua numbers are float64, these are all exactly representable
+				return pick(r, float64(1<<53), float64(1<<62), 9223372036854775808.0, 18446744073709551616.0, 1e19, 1e21, -9223372036854775808.0, -1e19, 1e300)
+			}
 			return int64(1) << uint(20+r.Intn(32))
 		case 5:
 			return 0
